@@ -390,6 +390,7 @@ def replay_antecedent(fl, FA, vals=None, depth=3, seed=0, budget=600, **kw):
             for _ in range(rng.randrange(0, 4)):
                 o.fuzzy.terms.append(fl.Activated(rng.choice(o.terms), rng.choice([0.25, 0.5, 0.75, 1.0]), fl.Minimum()))
         rule_text = f"if {text} then Z is lo" + (f" with {w}" if w != 1.0 else "")
+        n_before = len(outs[0].fuzzy.terms)
         try:
             r = fl.Rule.create(rule_text, e)
             got = np.float64(r.activate_with(cj, dj))
@@ -398,6 +399,23 @@ def replay_antecedent(fl, FA, vals=None, depth=3, seed=0, budget=600, **kw):
         exp = np.float64(w) * _eval_tree(fl, tree, vars_, cj, dj)
         cases += 1
         seen.add(text)
+        # "the connectives are computed with the rule block's conjunction and disjunction operators": the same degree when the rule is activated through a rule
+        # block by any activation method (Proportional normalises afterwards and is left to C08)
+        if it % 4 == 0 and exp == exp:
+            for mk in (fl.General, lambda: fl.First(5, 0.0), lambda: fl.Last(5, 0.0), lambda: fl.Highest(5), lambda: fl.Lowest(5), lambda: fl.Threshold(">=", 0.0)):
+                act = mk()
+                rb = fl.RuleBlock(name="rb", conjunction=cj, disjunction=dj, implication=fl.Minimum(), activation=act, rules=[r])
+                try:
+                    rb.activate()
+                    via = np.float64(r.activation_degree)
+                except Exception as ex:  # noqa
+                    return {"failed": True, "expected": float(exp), "observed": f"{type(ex).__name__}: {ex}", "cases": cases, "call": f"RuleBlock(conjunction={type(cj).__name__}, disjunction={type(dj).__name__}, activation={act}).activate() on rule '{rule_text}'"}
+                if not FA.same(via, exp, rel=1e-12, abs_=1e-12):
+                    return {"failed": True, "expected": float(exp), "observed": float(via), "cases": cases,
+                            "call": f"RuleBlock(conjunction={type(cj).__name__}, disjunction={type(dj).__name__}, activation={act}).activate() on rule '{rule_text}' inputs={[(v.name, None if v.value != v.value else float(v.value), v.enabled) for v in ins]}"}
+                # the block activation appended the rule's conclusion to Z: undo, so that the antecedent of the next evaluation sees the same fuzzy output
+                if r.enabled and len(outs[0].fuzzy.terms) > n_before:
+                    del outs[0].fuzzy.terms[n_before:]
         # "a loaded rule": loading leaves the rule's own text as written, and loading the unedited rule again (reload_rules, Engine.restart, a second
         # load_rules) gives the same reading
         kept = " ".join(r.antecedent.text.replace("(", " ( ").replace(")", " ) ").split()) == " ".join(text.replace("(", " ( ").replace(")", " ) ").split())
